@@ -120,3 +120,19 @@ def optimizer_spline_order(F, cls):
             if s:
                 return ORDER_OF[s], f["ty"]["n"]
     raise Broken("cannot determine the spline type of " + cls)
+
+
+def is_void_waypoints_cost(F, e):
+    """the expression is an object of the (stateless) VoidWaypointsCost type: a temporary, a named local, a member"""
+    e = strip_copy(e)
+    seen = 0
+    while isinstance(e, dict) and e.get("k") in ("cast", "conv", "paren", "copy") and e.get("e") is not None and seen < 10:
+        e = e["e"]
+        seen += 1
+    if not isinstance(e, dict):
+        return False
+    names = [((e.get("t") or {}).get("n") or ""), ((e.get("ty") or {}).get("n") or ""), ((e.get("callee") or {}).get("cls") or "")]
+    if not any(n.split("::")[-1] == "VoidWaypointsCost" for n in names if n):
+        return False
+    rec = next((r for nm, r in F.records.items() if nm.split("::")[-1] == "VoidWaypointsCost"), None)
+    return rec is not None and not rec.get("fields")
